@@ -25,9 +25,9 @@ class Family:
         res = dict(name=self.name, evaluations=0, cases=0, nontrivial=0, diffs=[], oracle_fail=[],
                    oracle_ok=0, oracle_skipped=0, oracle_unreadable=0, samples=[], hist={}, error=None,
                    exhaustive=self.exhaustive)
-        args = [hc.hbin(self.bin), "--out", out, "--seed", str(seed)] + self.args(tier, seed)
+        args = [hc.hbin(self.bin, self.crate), "--out", out, "--seed", str(seed)] + self.args(tier, seed)
         if extra_cases is not None:
-            args = [hc.hbin(self.bin), "--out", out, "--mode", "replay", "--in", extra_cases]
+            args = [hc.hbin(self.bin, self.crate), "--out", out, "--mode", "replay", "--in", extra_cases]
         try:
             rc, log = hc.sh(args, timeout=self.timeout)
         except subprocess.TimeoutExpired:
@@ -633,6 +633,35 @@ PROPS["C18"] = dict(
     ],
     trusted=PROPS["C01"]["trusted"],
     assumptions=PROPS["C01"]["assumptions"] + ["attribute writes at identifiers >= n_darts are outside the API contract (spare_untouched)"],
+)
+
+SERIAL_CLASSES = {"1": "a thread panicked inside a transaction", "2": "a thread did not terminate (retry loop / deadlock)",
+                  "3": "no one-at-a-time order of the committed transactions gives the final map"}
+PROPS["C07"] = dict(
+    level="proof",
+    level_text="Coq theorem C07_serializable: in the fast-stm protocol machine (per-variable versions, first reads logged, validation of "
+               "all logged reads at commit, atomic publication, abort/panic publish nothing) EVERY schedule of ANY workload of programs "
+               "without non-transactional reads leaves the store equal to the one-at-a-time execution of the committed transactions in "
+               "commit order with the same return values; only a validated commit publishes (C07_only_commit_publishes, "
+               "C07_commit_only_if_valid); every public 2-map/3-map call and kernel satisfies the premise (C07_premise_*). Tie: the same "
+               "machine, extracted, replays the grant sequence of a deterministic scheduler driving the real code (fast-stm rebuilt from "
+               "the registry source with yield points): labels, per-transaction results, commit order and final map must agree; the "
+               "serializability oracle is also applied to the implementation's observation alone. Partial w.r.t. the runtime: locks, "
+               "Arc reclamation and memory ordering inside commit are not modelled (commit is one step)",
+    technique="Coq proof (protocol-level serializability for all schedules) + schedule-controlled correspondence + extracted oracle",
+    families=[
+        Family("sched-exh", "sched", lambda tier, seed: ["--mode", "exh", "--cases", {"quick": "60", "thorough": "600"}[tier],
+                                                         "--maxsched", {"quick": "120", "thorough": "1500"}[tier]], 60,
+               [(61, "serial", SERIAL_CLASSES)], crate="harness-sched"),
+        Family("sched-random", "sched", lambda tier, seed: ["--mode", "random", "--cases", {"quick": "150", "thorough": "3000"}[tier],
+                                                            "--scheds", {"quick": "6", "thorough": "12"}[tier]], 60,
+               [(61, "serial", SERIAL_CLASSES)], crate="harness-sched"),
+    ],
+    trusted=PROPS["C01"]["trusted"] + ["sched/make_vendor.py: exact-text insertion of yield points into the registry copy of fast-stm "
+                                       "(fails if the source differs); harness-sched scheduler"],
+    assumptions=["commit (lock acquisition in address order, validation, publication, wake-ups) is one atomic step of the model",
+                 "parking_lot, Arc reclamation, memory ordering and OS scheduling are below the model",
+                 "retry() yields instead of blocking when run under the scheduler"],
 )
 
 # ---- 3-map families of the cross-dimensional properties
